@@ -135,6 +135,21 @@ func keyMutations(r *fw.Rand) []mut {
 		mut{"key-jwk-without-crv", false, func(m map[string]interface{}) { delete(m["publicKeyJwk"].(map[string]interface{}), "crv") }},
 		mut{"key-jwk-without-x", false, func(m map[string]interface{}) { delete(m["publicKeyJwk"].(map[string]interface{}), "x") }},
 		mut{"key-jwk-empty-object", false, func(m map[string]interface{}) { m["publicKeyJwk"] = map[string]interface{}{} }},
+		mut{"key-jwk-kty-null", false, func(m map[string]interface{}) { m["publicKeyJwk"].(map[string]interface{})["kty"] = nil }},
+		mut{"key-jwk-kty-not-a-string", false, func(m map[string]interface{}) {
+			m["publicKeyJwk"].(map[string]interface{})["kty"] = fw.Pick(r, []interface{}{1, true, []interface{}{"EC"}, map[string]interface{}{"kty": "EC"}})
+		}},
+		mut{"key-jwk-crv-not-a-string", false, func(m map[string]interface{}) {
+			m["publicKeyJwk"].(map[string]interface{})["crv"] = fw.Pick(r, []interface{}{nil, 256, []interface{}{}, map[string]interface{}{}})
+		}},
+		mut{"key-jwk-x-not-a-string", false, func(m map[string]interface{}) {
+			m["publicKeyJwk"].(map[string]interface{})["x"] = fw.Pick(r, []interface{}{nil, 12345, false, []interface{}{"AA"}, map[string]interface{}{"x": "AA"}})
+		}},
+		mut{"key-rsa-jwk-n-or-e-not-a-string", false, func(m map[string]interface{}) {
+			j := cloneMap(rsaJWK)
+			j[fw.Pick(r, []string{"n", "e"})] = fw.Pick(r, []interface{}{nil, 65537, []interface{}{}, map[string]interface{}{}})
+			m["publicKeyJwk"] = j
+		}},
 		mut{"key-rsa-jwk", true, func(m map[string]interface{}) { m["publicKeyJwk"] = cloneMap(rsaJWK) }},
 		mut{"key-rsa-jwk-without-n", false, func(m map[string]interface{}) { j := cloneMap(rsaJWK); delete(j, "n"); m["publicKeyJwk"] = j }},
 		mut{"key-rsa-jwk-without-e", false, func(m map[string]interface{}) { j := cloneMap(rsaJWK); delete(j, "e"); m["publicKeyJwk"] = j }},
